@@ -107,7 +107,14 @@ def constraint_sets(vs, xs, av):
         "eq-moving": (("cmp", "==", lin, c(at - 0.5)),),
         "ineq+eq": (("cmp", "<=", c(at - 1.0), lin), ("cmp", "==", sub(vs[0], c(xs[0] + 0.25)), c(0))),
         "nonlinear-ineq": (("cmp", "<=", sqn, c(r2 * 0.64 + 0.01)),),
-        **({"subset-row": (("cmp", ">=", add(vs[0], mul(c(3.0), vs[1])), c(xs[0] + 3.0 * xs[1] + 0.5)),)} if len(vs) >= 3 else {}),
+        **({"subset-row": (("cmp", ">=", add(vs[0], mul(c(3.0), vs[1])), c(xs[0] + 3.0 * xs[1] + 0.5)),),
+            # a uniform sum of squares over a strict subset of the variables (gradient row = one constant times the
+            # variables it mentions, zero elsewhere), as inequality and next to a slack-like equality
+            "ball-on-subset": (("cmp", "<=", add(("bin", "**", vs[0], c(2)), ("bin", "**", vs[1], c(2))),
+                                c(0.64 * (xs[0] ** 2 + xs[1] ** 2) + 0.01)),),
+            "ball-on-subset+eq": (("cmp", "<=", add(("bin", "**", vs[1], c(2)), ("bin", "**", vs[2], c(2))),
+                                   c(0.64 * (xs[1] ** 2 + xs[2] ** 2) + 0.01)),
+                                  ("cmp", "==", add(vs[0], vs[2]), c(xs[0] + xs[2] - 0.25)))} if len(vs) >= 3 else {}),
     }
 
 
